@@ -44,6 +44,7 @@ type (
 		Forall bool
 		Vars   []string
 		Body   Expr
+		Pats   []Expr
 	}
 )
 
@@ -159,7 +160,7 @@ func lexSpec(s string) ([]tok, error) {
 			out = append(out, tok{"str", v})
 			i = j + 1
 		default:
-			ops := []string{"<==>", "==>", "::", "==", "!=", "<=", ">=", "&&", "||", "<<", ">>", "+", "-", "*", "/", "%", "<", ">", "!", "(", ")", "[", "]", ",", ":", ".", "?", "&", "|", "^", "="}
+			ops := []string{"<==>", "==>", "::", "==", "!=", "<=", ">=", "&&", "||", "<<", ">>", "+", "-", "*", "/", "%", "<", ">", "!", "(", ")", "[", "]", "{", "}", ",", ":", ".", "?", "&", "|", "^", "="}
 			found := false
 			for _, op := range ops {
 				if strings.HasPrefix(s[i:], op) {
@@ -469,11 +470,30 @@ func (p *parser) primary() (Expr, error) {
 			if err := p.expect("::"); err != nil {
 				return nil, err
 			}
+			var pats []Expr
+			if p.isOp("{") {
+				p.next()
+				for {
+					pe, err := p.iff()
+					if err != nil {
+						return nil, err
+					}
+					pats = append(pats, pe)
+					if p.isOp(",") {
+						p.next()
+						continue
+					}
+					break
+				}
+				if err := p.expect("}"); err != nil {
+					return nil, err
+				}
+			}
 			body, err := p.iff()
 			if err != nil {
 				return nil, err
 			}
-			return EQuant{t.v == "forall", vars, body}, nil
+			return EQuant{t.v == "forall", vars, body, pats}, nil
 		}
 		return EIdent{t.v}, nil
 	case "op":
@@ -527,6 +547,8 @@ type FuncContract struct {
 	Modifies []string
 	Ghosts   []Clause // ghost NAME = expr evaluated at entry
 	Oracle   string   // Go boolean expression for replay
+	Witness  string   // Go function (replay_helpers.go) running known-tricky inputs on the real code
+	Applies  string   // spec predicate that this func(rune) bool computes (links function values to the spec)
 	Dead     []string // source lines expected to be unreachable (defensive code behind an assumed contract)
 	Line     int
 }
@@ -543,7 +565,7 @@ type Contracts struct {
 var clauseKeywords = map[string]bool{
 	"spec": true, "rec": true, "func": true, "lib": true, "iface": true, "requires": true, "ensures": true,
 	"loop": true, "returns": true, "modifies": true, "ghost": true, "oracle": true,
-	"const": true, "pure": true, "trusted": true, "assert": true, "assume": true, "deadcode": true,
+	"const": true, "pure": true, "trusted": true, "assert": true, "assume": true, "deadcode": true, "applies": true, "witness": true,
 }
 
 func loadContracts(paths ...string) (*Contracts, error) {
@@ -710,6 +732,10 @@ func (cs *Contracts) parse(path, data string) error {
 				}
 			case "oracle":
 				cur.Oracle = body
+			case "witness":
+				cur.Witness = strings.TrimSpace(body)
+			case "applies":
+				cur.Applies = strings.TrimSpace(body)
 			case "deadcode":
 				cur.Dead = append(cur.Dead, strings.Trim(body, "\" "))
 			case "ghost":
@@ -803,7 +829,7 @@ func (cs *Contracts) parse(path, data string) error {
 					return fail(err)
 				}
 				kind := w[2]
-				if kind != "invariant" && kind != "decreases" && kind != "unfold" {
+				if kind != "invariant" && kind != "decreases" && kind != "unfold" && kind != "step" {
 					return fail(fmt.Errorf("bad loop clause kind %q", kind))
 				}
 				idx := strings.Index(rc.text, kind) + len(kind)
